@@ -4,20 +4,22 @@
 -/
 import Gama.Lemmas.MemRepRefine
 import Gama.Lemmas.MatInvertPerm
+import Gama.Lemmas.MatVecAlg
+import Gama.Lemmas.SymChol
 namespace Gama.Props.C15
 open Gama Gama.MemRep Gama.MatVec
 
 /-! ## (A) Value semantics of the owning buffer `MemRep` -/
 
 /-- **Refinement for every history.**  Any script of construct / copy-construct /
-    move-construct / copy-assign / move-assign / resize / write / destroy operations, run
-    on the explicit heap from the empty state, either completes and then every slot holds
-    exactly the value that the same script yields on independent values (copy duplicates,
-    move transfers and leaves the source empty, nothing is shared), or stops at the same
-    operation with the same reason (`BadRank` thrown, or a broken precondition of the
-    caller) — and never because a block that is not allocated was freed, read or written.
-    The ownership invariant (no block owned twice, every `rep` points to a live block of
-    `sz` elements) holds in the final state. -/
+    move-construct / copy-assign / move-assign / resize / write / destroy operations, run on
+    the explicit heap from the empty state, either completes and then every slot holds exactly
+    the value that the same script yields on independent values (copy duplicates, move
+    transfers and leaves the source empty, nothing is shared), or stops at the same operation
+    with the same reason (`BadRank` thrown, or a precondition of the caller broken) — never
+    because a block that is not allocated was freed, read or written.  The ownership invariant
+    (no block owned twice, every `rep` points to a live block of `sz` elements, `nullptr` only
+    with `sz = 0`) holds in the final state. -/
 theorem value_semantics {K : Type} [Inhabited K] (ops : List (Op K)) :
     match run (St.init : St K) ops with
     | .ok s => Inv s ∧ specRun (fun _ => none) ops = .ok (val s)
@@ -26,12 +28,269 @@ theorem value_semantics {K : Type} [Inhabited K] (ops : List (Op K)) :
   have hv : val (St.init : St K) = fun _ => none := by funext k; simp [val, St.init]
   rw [hv] at h; exact h
 
-/-- one step from any state satisfying the invariant (used for the corollaries below) -/
+/-- one operation from any state satisfying the invariant -/
 theorem step_value_semantics {K : Type} [Inhabited K] {s s' : St K} (h : Inv s) {op : Op K}
     (hs : step s op = .ok s') : Inv s' ∧ spec (val s) op = .ok (val s') := step_ok h hs
 
-/-- no operation frees, reads or writes a block it does not own -/
+/-- no operation frees, reads or writes a block that is not allocated -/
 theorem no_heap_fault {K : Type} [Inhabited K] {s : St K} (h : Inv s) (op : Op K) :
     step s op ≠ .error .heapFault := step_no_heapFault h op
+
+/-- **Copies are independent of their source whatever the sizes.**  After `b = a`
+    (slots `j`, `i`, any two sizes including 0) a write through `b` leaves `a` unchanged and
+    a write through `a` leaves `b` unchanged. -/
+theorem copy_independent {K : Type} [Inhabited K] {s s1 s2 : St K} (h : Inv s) {i j k : Nat} {v : K}
+    (hij : i ≠ j) (h1 : step s (.assign j i) = .ok s1) :
+    val s1 j = val s i ∧ val s1 i = val s i ∧
+    (step s1 (.write j k v) = .ok s2 → val s2 i = val s i) ∧
+    (step s1 (.write i k v) = .ok s2 → val s2 j = val s i) := by
+  obtain ⟨hI1, hs1⟩ := step_ok h h1
+  have e1 : val s1 = upd (val s) j (val s i) := by
+    simp only [spec] at hs1
+    cases hvj : val s j with
+    | none => simp [hvj] at hs1
+    | some lj =>
+      cases hvi : val s i with
+      | none => simp [hvj, hvi] at hs1
+      | some li => simp only [hvj, hvi, Except.ok.injEq] at hs1; exact hs1.symm
+  have a1 : val s1 j = val s i := by rw [e1]; simp
+  have a2 : val s1 i = val s i := by rw [e1]; exact upd_other _ _ hij
+  refine ⟨a1, a2, ?_, ?_⟩
+  · intro h2
+    obtain ⟨_, hs2⟩ := step_ok hI1 h2
+    simp only [spec] at hs2
+    cases hv : val s1 j with
+    | none => simp [hv] at hs2
+    | some l =>
+      simp only [hv] at hs2
+      split at hs2
+      · simp only [Except.ok.injEq] at hs2
+        rw [← hs2, upd_other _ _ hij, a2]
+      · cases hs2
+  · intro h2
+    obtain ⟨_, hs2⟩ := step_ok hI1 h2
+    simp only [spec] at hs2
+    cases hv : val s1 i with
+    | none => simp [hv] at hs2
+    | some l =>
+      simp only [hv] at hs2
+      split at hs2
+      · simp only [Except.ok.injEq] at hs2
+        rw [← hs2, upd_other _ _ (Ne.symm hij), a1]
+      · cases hs2
+
+/-- `memcpy` is never called with a null pointer (the code after commit 87f5175:
+    `if (sz) std::memcpy(…)`), for every history -/
+theorem no_null_memcpy {K : Type} [Inhabited K] (ops : List (Op K)) {s : St K}
+    (h : run (St.init : St K) ops = .ok s) : s.ubNull = 0 := by
+  have := run_ubNull ops h; simpa [St.init] using this
+
+-- non-vacuity: a script with copies between different sizes incl. 0, a move and writes
+example : (match run (St.init : St Nat)
+      [.ctor 0 3, .write 0 1 7, .ctor 1 0, .assign 1 0, .write 1 0 9, .copyCtor 2 1,
+       .ctor 3 0, .assign 0 3, .moveAssign 3 2, .resize 1 2, .dtor 0] with
+    | .ok s => (val s 0, val s 1, val s 2, val s 3, s.leaked.length)
+    | .error _ => (none, none, none, none, 99))
+    = (none, some [0, 0], some [], some [9, 7, 0], 1) := by decide
+
+/-! ## (A) Index maps are bijections -/
+
+/-- `Mat::operator()(r,c) = (r−1)·cols + (c−1)` maps `[1,rows]×[1,cols]` one-to-one onto
+    `[0, rows·cols)` -/
+theorem mat_index_bijection (rows cols : Nat) :
+    (∀ r c, 1 ≤ r ∧ r ≤ rows → 1 ≤ c ∧ c ≤ cols → matIdx cols r c < rows * cols) ∧
+    (∀ r c r' c', 1 ≤ r ∧ r ≤ rows → 1 ≤ c ∧ c ≤ cols → 1 ≤ r' ∧ r' ≤ rows → 1 ≤ c' ∧ c' ≤ cols →
+        matIdx cols r c = matIdx cols r' c' → r = r' ∧ c = c') ∧
+    (∀ p, p < rows * cols → ∃ r c, (1 ≤ r ∧ r ≤ rows) ∧ (1 ≤ c ∧ c ≤ cols) ∧ matIdx cols r c = p) :=
+  ⟨fun _ _ hr hc => matIdx_lt hr hc,
+   fun _ _ _ _ hr hc hr' hc' h => matIdx_inj hr.1 hc hr'.1 hc' h,
+   fun _ hp => matIdx_surj hp⟩
+
+/-- `SymMat::operator()(i,j)`: the lower triangle `1 ≤ j ≤ i ≤ n` maps one-to-one onto
+    `[0, n(n+1)/2)`, and `(i,j)`, `(j,i)` share their cell -/
+theorem symmat_index_bijection (n : Nat) :
+    (∀ i j, 1 ≤ j → j ≤ i → i ≤ n → symIdx i j < n * (n + 1) / 2) ∧
+    (∀ i j i' j', 1 ≤ j → j ≤ i → 1 ≤ j' → j' ≤ i' → symIdx i j = symIdx i' j' → i = i' ∧ j = j') ∧
+    (∀ p, p < n * (n + 1) / 2 → ∃ i j, 1 ≤ j ∧ j ≤ i ∧ i ≤ n ∧ symIdx i j = p) ∧
+    (∀ i j, symIdx i j = symIdx j i) :=
+  ⟨fun _ _ h1 h2 h3 => symIdx_lt h1 h2 h3, fun _ _ _ _ h1 h2 h3 h4 h => symIdx_inj h1 h2 h3 h4 h,
+   fun _ hp => symIdx_surj hp, symIdx_symm⟩
+
+example : (List.range 6).map (fun p => (triRow 3 p, symIdx (triRow 3 p).1 (triRow 3 p).2))
+    = [((1,1),0), ((2,1),1), ((2,2),2), ((3,1),3), ((3,2),4), ((3,3),5)] := by decide
+
+/-! ## (A) Sums, products and transposes equal their definitions, for all dimensions -/
+
+/-- both product implementations (`operator*(const Mat&, const Mat&)` with pointer walks and the
+    generic `operator*(const MatBase&, const MatBase&)`) return, for conforming well-formed
+    operands, the same matrix, and it is the Mathlib matrix product — no read outside the operands -/
+theorem product_def {K : Type} [Semiring K] (A B : Mat K) (hA : A.WF) (hB : B.WF)
+    (hc : A.cols = B.rows) (d : K) :
+    ∃ C, matMul A B = .ok C ∧ mbMul A.mb B.mb = .ok C ∧ C.rows = A.rows ∧ C.cols = B.cols ∧
+      C.toMatrix d A.rows B.cols = A.toMatrix d A.rows A.cols * (B.toMatrix d A.cols B.cols) :=
+  matMul_toMatrix A B hA hB hc d
+
+/-- entrywise form with explicit finite sums -/
+theorem product_entries {K : Type} [Semiring K] (A B : Mat K) (hA : A.WF) (hB : B.WF)
+    (hc : A.cols = B.rows) (d : K) :
+    ∃ C, matMul A B = .ok C ∧ C.rows = A.rows ∧ C.cols = B.cols ∧ C.WF ∧
+      ∀ i j, i < A.rows → j < B.cols → C.at d i j = ∑ k ∈ Finset.range A.cols, A.at d i k * B.at d k j :=
+  matMul_spec A B hA hB hc d
+
+theorem sum_def {K : Type} [Add K] (A B : Mat K) (hA : A.WF) (hB : B.WF)
+    (hr : A.rows = B.rows) (hc : A.cols = B.cols) (d : K) :
+    ∃ C, matAdd A B = .ok C ∧ C.rows = A.rows ∧ C.cols = A.cols ∧ C.WF ∧
+      ∀ i j, i < A.rows → j < A.cols → C.at d i j = A.at d i j + B.at d i j :=
+  matAdd_spec A B hA hB hr hc d
+
+theorem difference_def {K : Type} [Sub K] (A B : Mat K) (hA : A.WF) (hB : B.WF)
+    (hr : A.rows = B.rows) (hc : A.cols = B.cols) (d : K) :
+    ∃ C, matSub A B = .ok C ∧ C.rows = A.rows ∧ C.cols = A.cols ∧ C.WF ∧
+      ∀ i j, i < A.rows → j < A.cols → C.at d i j = A.at d i j - B.at d i j :=
+  matSub_spec A B hA hB hr hc d
+
+/-- `Mat::transpose()` / `Mat(trans(A))` is the transpose, also for non-square matrices -/
+theorem transpose_def {K : Type} (A : Mat K) (hA : A.WF) (d : K) :
+    ∃ C, matTranspose A = .ok C ∧ C.rows = A.cols ∧ C.cols = A.rows ∧
+      C.toMatrix d A.cols A.rows = (A.toMatrix d A.rows A.cols).transpose := by
+  obtain ⟨C, h1, h2, h3, _, _⟩ := matTranspose_spec A hA d
+  obtain ⟨C', h1', h5⟩ := matTranspose_toMatrix A hA d
+  rw [h1] at h1'; cases h1'
+  exact ⟨C, h1, h2, h3, h5⟩
+
+example : matMul (⟨2, 3, #[1, 2, 3, 4, 5, 6]⟩ : Mat Int) ⟨3, 1, #[1, 0, -1]⟩
+    = .ok ⟨2, 1, #[-2, -2]⟩ := by decide
+example : matTranspose (⟨2, 3, #[1, 2, 3, 4, 5, 6]⟩ : Mat Int) = .ok ⟨3, 2, #[1, 4, 2, 5, 3, 6]⟩ := by decide
+
+/-! ## (A) Dimension guards: `BadRank` is thrown iff the operands do not conform -/
+
+theorem product_badRank_iff {K : Type} [Semiring K] (A B : Mat K) (hA : A.WF) (hB : B.WF) :
+    (matMul A B = .error .badRank ↔ A.cols ≠ B.rows) ∧
+    (mbMul A.mb B.mb = .error .badRank ↔ A.cols ≠ B.rows) := by
+  constructor
+  · constructor
+    · intro h hc
+      obtain ⟨C, h1, _⟩ := matMul_spec A B hA hB hc (0 : K)
+      rw [h1] at h; cases h
+    · intro h; simp [matMul, h]
+  · constructor
+    · intro h hc
+      obtain ⟨C, h1, _⟩ := mbMul_spec A B hA hB hc (0 : K)
+      rw [h1] at h; cases h
+    · intro h; simp [mbMul, Mat.mb, h]
+
+theorem sum_badRank_iff {K : Type} [Add K] [Inhabited K] (A B : Mat K) (hA : A.WF) (hB : B.WF) :
+    matAdd A B = .error .badRank ↔ (A.rows ≠ B.rows ∨ A.cols ≠ B.cols) := by
+  constructor
+  · intro h
+    by_cases hc : A.rows ≠ B.rows ∨ A.cols ≠ B.cols
+    · exact hc
+    · have hr : A.rows = B.rows := by by_contra hh; exact hc (Or.inl hh)
+      have hc' : A.cols = B.cols := by by_contra hh; exact hc (Or.inr hh)
+      obtain ⟨C, h1, _⟩ := matAdd_spec A B hA hB hr hc' default
+      rw [h1] at h; cases h
+  · intro h; simp [matAdd, h]
+
+example : matMul (⟨2, 3, #[1, 2, 3, 4, 5, 6]⟩ : Mat Int) ⟨2, 1, #[1, 0]⟩ = .error .badRank := by decide
+
+/-! ## Operators of the TransMat / TransVec family
+    The models of `TransMat ± TransMat`, `TransMat * TransMat`, `TransVec * MatBase` are those of the
+    code with the proposed one-line fixes (notes/proposed/C15-transmat-ctor-dims, -transmat-transmat-stride,
+    -transvec-matbase-bound); on the unfixed tree the correspondence reports the failing inputs below. -/
+
+/-- `trans(A) ± trans(B)` has the shape of its operands, for every shape -/
+theorem transmat_sum_shape {K : Type} [Add K] [Sub K] (A B C : TMat K) :
+    (tAddT A B = .ok C → C.rows = A.rows ∧ C.cols = A.cols) ∧
+    (tSubT A B = .ok C → C.rows = A.rows ∧ C.cols = A.cols) := by
+  constructor
+  · intro h; unfold tAddT at h
+    split at h
+    · cases h
+    · split at h
+      · cases h
+      · cases h; exact ⟨rfl, rfl⟩
+  · intro h; unfold tSubT at h
+    split at h
+    · cases h
+    · split at h
+      · cases h
+      · cases h; exact ⟨rfl, rfl⟩
+
+-- the former failing inputs (corpus/C15/f-*.txt), now with the mathematically right answers
+example : (tAddT (trans (⟨2, 3, #[1, 2, 3, 4, 5, 6]⟩ : Mat Int)) (trans ⟨2, 3, #[10, 20, 30, 40, 50, 60]⟩)).toOption.map
+      (fun C => (C.rows, C.cols, C.mb.entries.toOption)) = some (3, 2, some #[11, 44, 22, 55, 33, 66]) := by decide
+example : tvecMulMB (#[2, 1, -1] : Vec Int) (trans (⟨1, 3, #[-1, -1, 0]⟩ : Mat Int)).mb = .ok #[-3] := by decide
+example : tvecMulMB (#[1, 1] : Vec Int) (trans (⟨3, 2, #[1, 1, 1, 1, 1, 1]⟩ : Mat Int)).mb = .ok #[2, 2, 2] := by decide
+example : tMulT (trans (⟨3, 1, #[1, 2, 2]⟩ : Mat Int)) (trans (⟨2, 3, #[2, 2, -1, -1, -1, 1]⟩ : Mat Int))
+    = .ok ⟨1, 2, #[4, -1]⟩ := by decide
+
+/-! ## Operators whose faithful model VIOLATES the property (defects of the C++ without a small
+    patch; replayed on the implementation, see notes/reports/C15.md) -/
+
+/-- `operator*(const Vec&, const TransMat&)` accepts a 2×3 operand and reads outside it -/
+theorem vec_transmat_violates :
+    vecMulT (#[1, 1] : Vec Int) (trans (⟨3, 2, #[1, 1, 1, 1, 1, 1]⟩ : Mat Int)) = .error .oob := by
+  decide
+
+/-- `operator*(const SymMat&, const SymMat&)` returns a `SymMat`: only the lower triangle of `AB`
+    is kept, so `(AB)(1,2)` is wrong whenever `AB` is not symmetric -/
+theorem symmat_product_violates :
+    ∃ A B C : SMat Int, symMul A B = .ok C ∧
+      (symSquare C).toOption.map (·.data) ≠
+        ((do let a ← symSquare A; let b ← symSquare B; matMul a b : Except Err (Mat Int))).toOption.map (·.data) :=
+  ⟨⟨2, #[1, 2, 3]⟩, ⟨2, #[1, 0, 2]⟩, ⟨2, #[1, 2, 6]⟩, by decide, by decide⟩
+
+/-! ## (A) `Mat::invert`: the swap loops apply exactly the inverse permutation -/
+
+/-- With `σ(indr s) = indc s` (pivot rows ↦ pivot columns), the two swap loops turn the
+    in-place Gauss–Jordan result `B` into `final(u,v) = B(σ⁻¹ u, σ v)`: stated without `σ` as
+    `final(indc s, indr t) = B(indr s, indc t)` for all `s, t < N`. -/
+theorem undo_permutation {α : Type} (N : Nat) (indr indc : Nat → Nat) (m : Nat → α)
+    (hr : (∀ i, i < N → indr i < N) ∧ (∀ i j, i < N → j < N → indr i = indr j → i = j))
+    (hc : (∀ i, i < N → indc i < N) ∧ (∀ i j, i < N → j < N → indc i = indc j → i = j)) :
+    ∀ s t, s < N → t < N →
+      undoPermutation N indr indc m (indc s * N + indr t) = m (indr s * N + indc t) :=
+  undoPermutation_spec N indr indc m hr hc
+
+example : (List.range 9).map (undoPermutation 3 (fun i => (i + 1) % 3) (fun i => (i + 2) % 3) id)
+    = [7, 8, 6, 1, 2, 0, 4, 5, 3] := by decide
+
+/-! ## (A) `SymMat::cholDec` / `solve` -/
+
+section
+variable {K : Type} [Field K] [LinearOrder K] [IsStrictOrderedRing K]
+
+/-- if `cholDec` does not reject and reports nullity 0 (tolerance `≥ 0`), the packed factor `L`
+    satisfies `L Lᵀ = A` on the lower triangle (hence everywhere, by symmetry) and has a
+    non-zero diagonal -/
+theorem symchol (sq : K → K) (hsq : ∀ x, 0 ≤ x → sq x * sq x = x) (tol : K) (htol : 0 ≤ tol)
+    (n : Nat) (s L : Nat → K) (h : @cholDec K (fieldScalar K sq) n tol s = .ok (L, 0)) :
+    ∀ i j, 1 ≤ j → j ≤ i → i ≤ n →
+      (∑ k ∈ Finset.range j, L (tri i (k + 1)) * L (tri j (k + 1)) = s (tri i j)) ∧ L (tri i i) ≠ 0 := by
+  intro i j h1 h2 h3
+  obtain ⟨a, _, c⟩ := cholDec_spec sq hsq tol htol n s L h i j h1 h2 h3
+  exact ⟨a, c⟩
+
+/-- `solve` with that factor solves `A x = b` -/
+theorem symchol_solve (sq : K → K) (hsq : ∀ x, 0 ≤ x → sq x * sq x = x) (tol : K) (htol : 0 ≤ tol)
+    (n : Nat) (s L b : Nat → K) (h : @cholDec K (fieldScalar K sq) n tol s = .ok (L, 0)) :
+    ∀ i, 1 ≤ i → i ≤ n →
+      ∑ j ∈ Finset.range n, symEntry s i (j + 1) * @cholSolve K (fieldScalar K sq) n L b j = b (i - 1) :=
+  cholDec_cholSolve_spec sq hsq tol htol n s L b h
+
+/-- full statement not proved (general nullity): for a positive semi-definite `A` and
+    `cholDec = .ok (L, d)` with `d > 0`, `L Lᵀ = A` still holds when every zeroed pivot is an exact
+    zero (the Schur column vanishes).  Missing: the PSD ⇒ zero-column argument on the in-place
+    loop.  Proved instead: the nullity-0 case above. -/
+theorem symchol_partial (sq : K → K) (hsq : ∀ x, 0 ≤ x → sq x * sq x = x) (tol : K) (htol : 0 ≤ tol)
+    (n : Nat) (s L : Nat → K) (h : @cholDec K (fieldScalar K sq) n tol s = .ok (L, 0)) :
+    ∀ i, 1 ≤ i → i ≤ n → 0 < L (tri i i) * L (tri i i) := by
+  intro i h1 h2
+  exact (cholDec_spec sq hsq tol htol n s L h i i h1 (Nat.le_refl i) h2).2.1
+
+end
+
+example : ∃ L, @cholDec ℚ (fieldScalar ℚ sqEx) 2 (1 / 100000000) sEx = .ok (L, 0) ∧
+    L 0 = 2 ∧ L 1 = 1 ∧ L 2 = 1 := cholDec_example
 
 end Gama.Props.C15
